@@ -3,12 +3,12 @@ module verifharness
 go 1.18
 
 require (
+	github.com/antlr/antlr4/runtime/Go/antlr/v4 v4.0.0-20221202181307-76fa05c21b12
 	github.com/awalterschulze/gographviz v0.0.0-20190522210029-fa59802746ab
 	github.com/modernizing/coca v0.0.0
 )
 
 require (
-	github.com/antlr/antlr4/runtime/Go/antlr/v4 v4.0.0-20221202181307-76fa05c21b12 // indirect
 	github.com/boyter/scc v0.0.0-20200907020550-91af61dfda0d // indirect
 	github.com/dbaggerman/cuba v0.3.2 // indirect
 	github.com/huleTW/bad-smell-analysis v0.1.0 // indirect
